@@ -92,6 +92,33 @@ def run(v):
                     "c09_mc_fob", workers=4, timeout=900, coverage=False)
     if rb.violated != "LastWordUnlessOverlapped":
         raise common.ToolError("MC_LspServer: the first-of-batch deviation is not refuted (vacuous invariant)")
+    # the user dictionary as server state (UserDict.tla): model, named deviation refuted, real sessions validated
+    mcu = os.path.join(SPEC, "mc", "MC_UserDict.tla")
+    ru = common.tlc(mcu, os.path.join(SPEC, "mc", "MC_UserDict_dev_onlynamed.cfg"), "c09_ud_dev", workers=2, timeout=600, coverage=False)
+    if ru.violated != "AcceptedEverywhere":
+        raise common.ToolError("MC_UserDict_dev_onlynamed: TLC did not refute AcceptedEverywhere (vacuous invariant)")
+    ru = common.tlc(mcu, os.path.join(SPEC, "mc", "MC_UserDict_quick.cfg"), "c09_ud", workers=2, timeout=600, coverage=False)
+    if ru.violated:
+        v.failure({"kind": "model", "invariant": ru.violated, "module": "UserDict"}, {"tlc_output": ru.output[-3000:]})
+    v.add_mc("MC_UserDict", ru, "three documents, open / change / close / add-to-user-dictionary in every order: AcceptedEverywhere, NotBefore")
+    tud = os.path.join(wd, "trace_userdict.ndjson")
+    rc, out, err = common.run_hv(["ls-userdict", "--out", tud, "--seed", v.seed, "--sessions", 120 if thorough else 15], timeout=3600)
+    if rc != 0:
+        raise common.ToolError("hv ls-userdict failed: " + err[-1500:])
+    consumed, rejects, _ = common.validate_trace(os.path.join(SPEC, "trace", "Trace_UserDict.tla"), os.path.join(SPEC, "trace", "Trace_UserDict.cfg"),
+                                                 tud, "c09_udt", timeout=600)
+    uevs = common.read_ndjson(tud)
+    if consumed != len(uevs):
+        raise common.ToolError(f"trace {tud}: consumed {consumed} of {len(uevs)} events")
+    v.cov["evaluations"] += len(uevs)
+    v.cov["traces_validated_against_impl"] += sum(1 for e in uevs if e["ev"] == "Reset")
+    v.cov["user_dictionary_sessions"] = {"sessions": sum(1 for e in uevs if e["ev"] == "Reset"), "adds": sum(1 for e in uevs if e["ev"] == "Add")}
+    for rej in rejects:
+        i = rej[0] - 1
+        k = i
+        while k > 0 and uevs[k]["ev"] != "Reset":
+            k -= 1
+        v.failure({"kind": rej[1], "level": "user-dictionary"}, {"event": uevs[i], "session": uevs[k:i + 1]})
     # liveness: the server always comes to rest (weak fairness of handler steps, no state constraint)
     rl = common.tlc(os.path.join(SPEC, "mc", "MC_LspServer.tla"), os.path.join(SPEC, "mc", "MC_LspServer_live.cfg"),
                     "c09_mc_live", workers=8, timeout=1800, coverage=False)
